@@ -272,26 +272,29 @@ Lemma step_outside_frame_p : forall s x l,
 Proof.
   intros s x l Hti Hpc Hl Henv.
   destruct x as [id fr ext c0 | m ids fr ext src | ids a | ids rel | members z c0 | ids | | ids | ids | l' c' | rids];
-    unfold step, step_v; simpl in Hti, Henv.
+    simpl in Hti, Henv;
+    try (destruct (held_any s ids) eqn:Hh; [rewrite (ingest_held_noop _ _ _ _ _ _ Hh); reflexivity|]);
+    try (destruct (held_any s (map fst members)) eqn:Hh; [rewrite (zip_held_noop _ _ _ _ Hh); reflexivity|]);
+    unfold step, step_v.
   - destruct fr as [p| |]; [| reflexivity | reflexivity].
     destruct (refuse_location true p); [reflexivity|].
     destruct (held_any s [id]); [reflexivity|].
     simpl in Hpc. apply andb_true_iff in Hpc. destruct Hpc as [E1 E2]. apply lkey_eqb_eq in E1. apply lkey_eqb_eq in E2.
     cbv zeta. rewrite Hti. rewrite E1. rewrite E2. rewrite fget_fset_same. cbn [fst fs add_recs with_fs].
     apply fget_fset_other. apply inside_differ; assumption.
-  - destruct fr as [p| |]; [| reflexivity | reflexivity].
+  - rewrite Hh. cbn [andb].
+    destruct fr as [p| |]; [| reflexivity | reflexivity].
     destruct (fget (fs s) src) as [cs|] eqn:Es; [|reflexivity].
     destruct (refuse_location true p); [reflexivity|].
     assert (E : lkey_eqb (target_loc p ext) l = false) by (apply inside_differ; assumption).
-    destruct (held_any s ids) eqn:Hh; cbn [fst fs add_recs with_fs].
-    + apply fget_fdel_other. exact E.
-    + rewrite (fget_fset_other _ _ _ _ E). destruct m; [reflexivity|].
-      rewrite andb_true_r in Henv. apply fget_fdel_other. exact Henv.
+    cbn [fst fs add_recs with_fs].
+    rewrite (fget_fset_other _ _ _ _ E). destruct m; [reflexivity|].
+    try rewrite andb_true_r in Henv. apply fget_fdel_other. exact Henv.
   - destruct (fget (fs s) (abs_loc a)); [|reflexivity]. destruct (held_any s ids); reflexivity.
   - destruct (negb (inside (rel_loc (stage_a rel)))); [reflexivity|].
     destruct (fget (fs s) (rel_loc (stage_a rel))); [|reflexivity]. destruct (held_any s ids); reflexivity.
   - assert (E : lkey_eqb (rel_loc z) l = false) by (apply inside_differ; assumption).
-    destruct (held_any s (map fst members)); cbn [fst fs add_recs with_fs]; [apply fget_fdel_other | apply fget_fset_other]; exact E.
+    rewrite Hh. cbn [andb]. cbn [fst fs add_recs with_fs]. apply fget_fset_other. exact E.
   - reflexivity.
   - apply empty_trash_v_outside_frame; assumption.
   - apply (empty_trash_v_outside_frame (do_trash s ids)); assumption.
@@ -345,8 +348,7 @@ Lemma delete_only_unreferenced_p : forall h1 x h2 s l c,
 Proof.
   intros h1 x h2 s l c G Henv Hf Hd. apply guarded_app in G. simpl in G.
   repeat (apply andb_true_iff in G; destruct G as [G ?]).
-  apply (step_deletes_unreferenced_p _ x l c); try assumption.
-  apply negb_true_iff. assumption.
+  apply (step_deletes_unreferenced_p _ x l c); assumption.
 Qed.
 
 (* a sibling that shares the artifact keeps it: multi-ref files, zip members *)
